@@ -39,6 +39,11 @@ func connValidator(c *tmlibp2p.Connection, h tmconsensus.ConsensusHandler) pubsu
 //go:linkname connIgnoreMessage github.com/gordian-engine/gordian/tm/tmp2p/tmlibp2p.ignoreMessage
 func connIgnoreMessage(context.Context, peer.ID, *pubsub.Message) pubsub.ValidationResult
 
+// The topic validator that is actually registered with pubsub (it consults the handler installed last).
+//
+//go:linkname connTopicValidator github.com/gordian-engine/gordian/tm/tmp2p/tmlibp2p.(*Connection).validateConsensusMessage
+func connTopicValidator(c *tmlibp2p.Connection, ctx context.Context, id peer.ID, msg *pubsub.Message) pubsub.ValidationResult
+
 func init() {
 	registry.Execs["c20a"] = execA
 }
@@ -270,6 +275,59 @@ func execA(t *testing.T, job vx.Job) (res vx.Result) {
 				}
 			}
 		}
+	}
+
+	// Repeated payloads through the registered topic validator and the real SetConsensusHandler path: the verdict
+	// for a payload is the handler's verdict for THIS delivery - an earlier delivery of the same bytes that was
+	// accepted (by this handler, or by a handler installed before) must not carry over.
+	if lo == 0 {
+		topicV := func(ctx context.Context, id peer.ID, msg *pubsub.Message) pubsub.ValidationResult {
+			return connTopicValidator(conn, ctx, id, msg)
+		}
+		for _, in := range inputs {
+			if in.Key == "" {
+				continue
+			}
+			for _, second := range []gexchange.Feedback{gexchange.FeedbackRejected, gexchange.FeedbackIgnored, gexchange.FeedbackUnspecified} {
+				for _, swap := range []bool{false, true} {
+					rec := newRecorder()
+					n := 0
+					h := &handler{name: "H1", rec: rec, fb: func(string, uint64) gexchange.Feedback {
+						n++
+						if n == 1 || swap {
+							return gexchange.FeedbackAccepted
+						}
+						return second // a handler that does not accept a repeated message
+					}}
+					conn.SetConsensusHandler(ctx, h)
+					r1, pan := one(topicV, other, in.Data)
+					if pan != nil {
+						continue
+					}
+					if swap {
+						conn.SetConsensusHandler(ctx, constHandler("H2", rec, second))
+					}
+					r2, pan := one(topicV, other, in.Data)
+					res.Count("repeat_cells", 1)
+					if pan != nil {
+						continue
+					}
+					keys[fmt.Sprintf("repeat|%s|second=%s|swap=%v|%s,%s", in.Class, fbClass(second), swap, vrName(r1), vrName(r2))] = struct{}{}
+					if r1 != pubsub.ValidationAccept {
+						res.Violate(prop, "a:repeat:first-delivery-not-relayed-although-accepted:"+in.Class, fmt.Sprintf("first delivery of %s: handler accepted, validator answered %s", in.Name, vrName(r1)), 0)
+					}
+					if r2 == pubsub.ValidationAccept {
+						how := "same-handler"
+						if swap {
+							how = "handler-replaced"
+						}
+						res.Violate(prop, fmt.Sprintf("a:repeat:second-delivery-relayed-without-accept:%s:%s", in.Class, how),
+							fmt.Sprintf("the same payload %s was delivered twice; for the second delivery the handler in force answered %s, yet the topic validator returned ValidationAccept (=relay); handler calls=%v", in.Name, fbClass(second), rec.snapshot()), 0)
+					}
+				}
+			}
+		}
+		conn.SetConsensusHandler(ctx, nil)
 	}
 
 	// The validator in force while no handler is installed.
